@@ -155,6 +155,53 @@ def flow_ok(r, obs, blocks, I):
     return None
 
 
+def flow_geometric(m, I, blocks):
+    """third clause, from the geometry alone (any object kind: wires, arcs, helices): an end of an object whose own
+    pulse block starts / ends with a pulse sitting on that end point is an attaching end; its J line is the current
+    of that pulse.  Also: an end without any pulse on it prints E."""
+    tol = 2.5e-3 * float(m.min_seglen)
+    for k, g in enumerate(m.geo):
+        own = list(g.pulses)
+        ln = blocks[k]['lines']
+        for e in (0, 1):
+            if g.is_ground[e]:
+                continue
+            ep = np.array(g.endpoints[e], dtype=float)
+            x = ln[0] if e == 0 else ln[-1]
+            on_end = [p for p in m.pulses if np.max(np.abs(np.array(p.point, dtype=float) - ep)) <= tol]
+            if not on_end:
+                if x[0] != 'E':
+                    return 'object %d end %d carries no pulse but prints %r' % (k + 1, e + 1, x[0])
+                continue
+            if not own:
+                continue
+            cand = own[0] if e == 0 else own[-1]
+            if np.max(np.abs(np.array(cand.point, dtype=float) - ep)) > tol:
+                continue                   # registering end: the sum over the attached objects is C09_kcl's business
+            if x[0] != 'J':
+                return 'object %d end %d has the junction pulse %d on it but prints %r' % (k + 1, e + 1, cand.idx + 1, x[0])
+            if abs(x[1] - I[cand.idx]) > 1e-9:
+                return ('junction line of object %d end %d prints %r, the pulse on that end (number %d) carries %r'
+                        % (k + 1, e + 1, x[1], cand.idx + 1, complex(I[cand.idx])))
+    return None
+
+
+def curved_flow_cases(seed):
+    """closed and open structures of arcs, helices and wires (C12's list): (name, violation or None)"""
+    import c12
+    from mininec.mininec import Mininec
+    out = []
+    for j, (name, mk) in enumerate(c12.curved_cases()):
+        m = Mininec(10.0, mk())
+        rs = np.random.RandomState(seed + j)
+        N = len(m.pulses)
+        I = rs.randint(-9, 10, N) + 1j * rs.randint(-9, 10, N)
+        m.current = I.astype(complex)
+        blocks = parse_current_table(m.currents_as_mininec())
+        out.append((name, flow_geometric(m, I, blocks)))
+    return out
+
+
 def classify(r, blocks, obs=None, I=None):
     bad, known = [], []
     fe = free_ends_ok(r, blocks)
@@ -172,7 +219,18 @@ def classify(r, blocks, obs=None, I=None):
     return bad, known
 
 
+def replay_curved(rp):
+    for name, bad in curved_flow_cases(rp['current_seed']):
+        if name == rp['name']:
+            print('replay', name, '->', bad or 'property holds')
+            return 1 if bad else 0
+    print('replay: unknown structure', rp['name'])
+    return 1
+
+
 def replay(rp):
+    if rp.get('kind') == 'curved-flow':
+        return replay_curved(rp)
     spec = rp.get('spec')
     if not spec:
         print('replay: nothing to execute:', rp.get('kind'))
@@ -223,8 +281,20 @@ def run(ck):
         # the property on the printed report (exact: integer currents print exactly)
         bad, known = classify(r, blocks, obs, I)
         nknown += len(known)
+        if not bad:
+            fg = flow_geometric(m, I, blocks)
+            if fg:
+                bad = [fg]
         if bad:
             viol.append(dict(spec=spec, observed=bad, current_seed=ck.seed * 7919 + i))
+    # arcs, helices, two-object loops: the third clause from the geometry alone
+    cseed = ck.seed * 104729
+    for name, bad in curved_flow_cases(cseed):
+        ck.case(('curved', name), True)
+        ck.count('curved_flow_cases')
+        if bad:
+            ck.violation(dict(kind='curved-flow', name=name, current_seed=cseed, observed=bad))
+    # the same clause on the wire graphs, independent of the model
     ck.stats['disagreements'] = len(dis)
     ck.stats['known_finding_nodes'] = nknown
     ck.cov['rule'] = ('random wire graphs (as C12), random Gaussian-integer current vector set on the object, CURRENT DATA block '
